@@ -637,3 +637,6 @@ func (c *TCPConn) PeerUnread() int { return c.out.size }
 
 // PeerClosed reports whether the other side closed its end.
 func (c *TCPConn) PeerClosed() bool { return c.peer.closed }
+
+// LocalClosed reports whether this side closed the connection.
+func (c *TCPConn) LocalClosed() bool { return c.closed }
